@@ -28,7 +28,8 @@ using namespace draco;
 static std::atomic<uint64_t> g_live{0}, g_peak{0}, g_maxreq{0};
 static std::atomic<bool> g_track{false};
 static uint64_t g_declared = 0;
-extern "C" void DracoVerifDeclaredCount(const char *, uint64_t c) { if (g_track) g_declared += c; }
+static uint64_t g_kd_dim = 0;   // total number of components a kd-tree attribute block declares (sizes the tree decoder's stacks)
+extern "C" void DracoVerifDeclaredCount(const char *what, uint64_t c) { if (!g_track) return; g_declared += c; if (what && !strcmp(what, "kd_tree_dimension")) g_kd_dim = c; }
 static void *track_alloc(size_t n) {
   void *p = malloc(n + 16);
   if (!p) return nullptr;
@@ -71,7 +72,8 @@ static std::unique_ptr<Mesh> gen_mesh(Rng &r, int flavor) {
   for (int i = 0; i < extra; i++) { int a = (int)r.below(npts), b = (int)r.below(npts), c = r.chance(20) ? a : (int)r.below(npts); faces.push_back({a, b, c}); }
   if (faces.empty()) faces.push_back({0, 1, w + 2});
   mb.Start((int)faces.size());
-  int pos = mb.AddAttribute(GeometryAttribute::POSITION, 3, DT_FLOAT32);
+  const bool ipos = r.chance(30);   // integer positions: decoded by the plain integer attribute decoder (no transform of their own)
+  int pos = mb.AddAttribute(GeometryAttribute::POSITION, 3, ipos ? DT_INT32 : DT_FLOAT32);
   int tex = r.chance(70) ? mb.AddAttribute(GeometryAttribute::TEX_COORD, 2, DT_FLOAT32) : -1;
   int nor = r.chance(50) ? mb.AddAttribute(GeometryAttribute::NORMAL, 3, DT_FLOAT32) : -1;
   int gen = r.chance(50) ? mb.AddAttribute(GeometryAttribute::GENERIC, 1, DT_UINT8) : -1;
@@ -79,7 +81,8 @@ static std::unique_ptr<Mesh> gen_mesh(Rng &r, int flavor) {
   int seam_col = r.chance(50) ? (int)r.range(1, w) : -1;
   for (size_t f = 0; f < faces.size(); f++) {
     auto &F = faces[f];
-    mb.SetAttributeValuesForFace(pos, FaceIndex((uint32_t)f), P[F[0]].data(), P[F[1]].data(), P[F[2]].data());
+    if (ipos) { int32_t q[3][3]; for (int k = 0; k < 3; k++) for (int c = 0; c < 3; c++) q[k][c] = (int32_t)std::lround(P[F[k]][c] * 100.f); mb.SetAttributeValuesForFace(pos, FaceIndex((uint32_t)f), q[0], q[1], q[2]); }
+    else mb.SetAttributeValuesForFace(pos, FaceIndex((uint32_t)f), P[F[0]].data(), P[F[1]].data(), P[F[2]].data());
     if (tex >= 0) { float uv[3][2]; for (int k = 0; k < 3; k++) { int x = F[k] % (w + 1), y = F[k] / (w + 1); bool right = (F[0] % (w + 1) >= seam_col) && seam_col >= 0; uv[k][0] = (float)x / (w + 1) + (right ? 0.5f : 0.f); uv[k][1] = (float)y / (h + 1); } mb.SetAttributeValuesForFace(tex, FaceIndex((uint32_t)f), uv[0], uv[1], uv[2]); }
     if (nor >= 0) { float n[3][3]; for (int k = 0; k < 3; k++) { float a = (float)(F[k] * 37 % 100) / 100.f; n[k][0] = std::sin(a * 6.f); n[k][1] = std::cos(a * 6.f) * 0.6f; n[k][2] = 0.8f * std::cos(a * 6.f); } mb.SetAttributeValuesForFace(nor, FaceIndex((uint32_t)f), n[0], n[1], n[2]); }
     if (gen >= 0) { uint8_t v = (uint8_t)(f % 5); mb.SetPerFaceAttributeValueForFace(gen, FaceIndex((uint32_t)f), &v); }
@@ -200,7 +203,7 @@ static const uint64_t K_PER_BYTE = 4096, K_PER_ELEMENT = 4096, C_FIXED = 24ull <
 
 static void run_case(FILE *out, const Case &c, Shared *sh) {
   std::vector<uint8_t> copy = c.bytes;
-  g_declared = 0; g_live = 0; g_peak = 0; g_maxreq = 0; g_track = true;
+  g_declared = 0; g_kd_dim = 0; g_live = 0; g_peak = 0; g_maxreq = 0; g_track = true;
   std::string res, bad; bool ok = false;
   {
     DecoderBuffer db; db.Init((const char *)copy.data(), copy.size()); Decoder d;
@@ -218,8 +221,12 @@ static void run_case(FILE *out, const Case &c, Shared *sh) {
   // C18: single request and live peak against the stream length and the counts the stream declared
   const uint64_t bound = K_PER_BYTE * c.bytes.size() + K_PER_ELEMENT * g_declared + C_FIXED;
   const uint64_t worst = std::max<uint64_t>(g_maxreq, g_peak);
-  if (res.empty() && worst > bound) fprintf(out, "! C18 allocation not justified by input length + declared counts: max_request=%llu peak=%llu bound=%llu declared=%llu len=%zu %s %s\n",
-                               (unsigned long long)g_maxreq.load(), (unsigned long long)g_peak.load(), (unsigned long long)bound, (unsigned long long)g_declared, c.bytes.size(), c.label.c_str(), hex(c.bytes.data(), c.bytes.size()).c_str());
+  // known finding: DynamicIntegerPointsKdTreeDecoder's two stacks hold (32 D + 1) vectors of D uint32 each, D = declared total number of
+  // components: quadratic in a declared count.  An excess fully explained by exactly those stacks is tagged with that call site.
+  const uint64_t kd_stacks = 2 * (32 * g_kd_dim + 1) * (4 * g_kd_dim + 32);
+  if (res.empty() && worst > bound) fprintf(out, "! %s allocation not justified by input length + declared counts: max_request=%llu peak=%llu bound=%llu declared=%llu kd_dimension=%llu len=%zu %s %s\n",
+                               (g_kd_dim > 0 && worst <= bound + kd_stacks) ? "C18-kdtree-decoder-stacks-quadratic-in-declared-dimension" : "C18",
+                               (unsigned long long)g_maxreq.load(), (unsigned long long)g_peak.load(), (unsigned long long)bound, (unsigned long long)g_declared, (unsigned long long)g_kd_dim, c.bytes.size(), c.label.c_str(), hex(c.bytes.data(), c.bytes.size()).c_str());
   if (!res.empty() && K_PER_ELEMENT * g_declared + K_PER_BYTE * c.bytes.size() < (1ull << 28))   // an allocation failure is tolerated only for arrays sized by a declared count
     fprintf(out, "! C02 %s without a large declared element count (declared=%llu): %s %s\n", res.c_str(), (unsigned long long)g_declared, c.label.c_str(), hex(c.bytes.data(), c.bytes.size()).c_str());
   uint64_t ratio = worst * 1000 / (bound ? bound : 1); if (ratio > sh->worst_alloc_ratio_x1000) sh->worst_alloc_ratio_x1000 = ratio;
@@ -258,6 +265,12 @@ int main(int argc, char **argv) {
         for (uint8_t v : pats) if (v != o) { std::vector<uint8_t> b = s.bytes; b[p] = v; cases.push_back({b, "sweep@" + U(p) + "=" + U(v) + " of " + s.label, 0}); } }
     if (thorough && s.bytes.size() < 600) for (size_t k = 0; k < s.bytes.size(); k++) { std::vector<uint8_t> b(s.bytes.begin(), s.bytes.begin() + k); cases.push_back({b, "truncate@" + U(k) + " of " + s.label, 2}); }
   }
+  { // known finding D23 made visible on every run: a VALID kd-tree stream of 4 points with 3 x 200 uint8 components (D = 600)
+    PointCloud pc; pc.set_num_points(4);
+    for (int a = 0; a < 3; a++) { GeometryAttribute ga; ga.Init(a == 0 ? GeometryAttribute::POSITION : GeometryAttribute::GENERIC, nullptr, 200, DT_UINT8, false, 200, 0); int id = pc.AddAttribute(ga, true, 4);
+      for (int p = 0; p < 4; p++) { std::vector<uint8_t> v(200); for (int k = 0; k < 200; k++) v[k] = (uint8_t)((p * 7 + k * 3 + a) & 0xff); pc.attribute(id)->SetAttributeValue(AttributeValueIndex(p), v.data()); } }
+    Encoder enc; enc.SetEncodingMethod(POINT_CLOUD_KD_TREE_ENCODING); EncoderBuffer eb;
+    if (enc.EncodePointCloudToBuffer(pc, &eb).ok()) cases.push_back({std::vector<uint8_t>(eb.data(), eb.data() + eb.size()), "valid kd-tree stream, 4 points, 3 attributes x 200 components", 1}); }
   // distinct inputs
   std::set<size_t> hs; for (auto &c : cases) hs.insert(std::hash<std::string>()(std::string(c.bytes.begin(), c.bytes.end()) + (char)c.entry));
   FILE *out = fopen(argv[3], "w"); if (!out) return 2;
